@@ -614,3 +614,142 @@ func ruleSign(p *Prog, r *Report) {
 		r.OK("SIGN", key, at, "sub-seconds in milliseconds, GPS time in seconds, zone shift = -offset seconds")
 	}
 }
+
+// ---- VALFETCH: an out-of-line value is fetched at its offset with its full size -----------------------------
+
+// ruleValFetch: exif2.(*ifdReader).readTagValue — the one place every out-of-line value passes through — skips
+// exactly ValueOffset − po bytes and then reads exactly Size() bytes of the current tag. A clamped, rounded or
+// otherwise altered length hands the value parsers a value that is not the one encoded in the file.
+func ruleValFetch(p *Prog, r *Report) {
+	f := p.Func("exif2", "*ifdReader", "readTagValue")
+	keyD := "exif2.(*ifdReader).readTagValue | skips ValueOffset - po"
+	keyR := "exif2.(*ifdReader).readTagValue | reads Size() bytes"
+	if f == nil {
+		r.Undecided("VALFETCH", keyD, "-", "unresolved anchor")
+		r.Undecided("VALFETCH", keyR, "-", "unresolved anchor")
+		return
+	}
+	// the tag: the result of currentTag (possibly spilled to a local)
+	isCurTag := func(v ssa.Value) bool {
+		for i := 0; i < 4; i++ {
+			switch x := v.(type) {
+			case *ssa.Call:
+				sc := x.Call.StaticCallee()
+				return sc != nil && sc.Name() == "currentTag"
+			case *ssa.UnOp:
+				if x.Op != token.MUL {
+					return false
+				}
+				al, ok := x.X.(*ssa.Alloc)
+				if !ok {
+					return false
+				}
+				var val ssa.Value
+				n := 0
+				for _, rf := range refs(al) {
+					if st, ok := rf.(*ssa.Store); ok && st.Addr == ssa.Value(al) {
+						val = st.Val
+						n++
+					}
+				}
+				if n != 1 {
+					return false
+				}
+				v = val
+			default:
+				return false
+			}
+		}
+		return false
+	}
+	tagField := func(v ssa.Value, field string) bool {
+		switch x := v.(type) {
+		case *ssa.Field:
+			return fieldNameV(x.X.Type(), x.Field) == field && isCurTag(x.X)
+		case *ssa.UnOp:
+			if x.Op == token.MUL {
+				if fa, ok := x.X.(*ssa.FieldAddr); ok && fieldName(fa.X.Type(), fa.Field) == field {
+					if al, ok := fa.X.(*ssa.Alloc); ok {
+						ld := &ssa.UnOp{Op: token.MUL, X: al}
+						_ = ld
+						// the local holds the current tag
+						n := 0
+						okTag := false
+						for _, rf := range refs(al) {
+							if st, ok := rf.(*ssa.Store); ok && st.Addr == ssa.Value(al) {
+								n++
+								okTag = isCurTag(st.Val)
+							}
+						}
+						return n == 1 && okTag
+					}
+				}
+			}
+		}
+		return false
+	}
+	recvField := func(v ssa.Value, field string) bool {
+		if u, ok := v.(*ssa.UnOp); ok && u.Op == token.MUL {
+			if fa, ok := u.X.(*ssa.FieldAddr); ok && fieldName(fa.X.Type(), fa.Field) == field {
+				_, isParam := fa.X.(*ssa.Parameter)
+				return isParam
+			}
+		}
+		return false
+	}
+	var nD, nR int
+	badD, badR := "", ""
+	atD, atR := p.posStr(f.Pos()), p.posStr(f.Pos())
+	eachCall(f, func(site ssa.CallInstruction) {
+		sc := site.Common().StaticCallee()
+		if sc == nil || len(site.Common().Args) != 2 {
+			return
+		}
+		arg := site.Common().Args[1]
+		switch sc.Name() {
+		case "discard":
+			nD++
+			atD = p.posStr(instrPos(site))
+			a := affineOf(arg, 0)
+			okForm := len(a.Terms) == 2 && a.C == 0
+			for k, c := range a.Terms {
+				v, isV := k.(ssa.Value)
+				switch {
+				case !isV:
+					okForm = false
+				case c == 1 && tagField(v, "ValueOffset"):
+				case c == -1 && recvField(v, "po"):
+				default:
+					okForm = false
+				}
+			}
+			if !okForm {
+				badD = "the amount skipped before the value is " + a.String() + ", want (current tag).ValueOffset - ir.po"
+			}
+		case "fastRead":
+			nR++
+			atR = p.posStr(instrPos(site))
+			v := stripConv(arg)
+			c, ok := v.(*ssa.Call)
+			if !ok || c.Call.StaticCallee() == nil || c.Call.StaticCallee().Name() != "Size" || len(c.Call.Args) != 1 || !isCurTag(c.Call.Args[0]) {
+				badR = "the length read is " + shortVal(arg) + ", want exactly (current tag).Size(): a clamped or altered length truncates or pads the value the parsers see"
+			}
+		}
+	})
+	if nD != 1 && badD == "" {
+		badD = fmt.Sprintf("%d discard calls found, want one", nD)
+	}
+	if nR != 1 && badR == "" {
+		badR = fmt.Sprintf("%d fastRead calls found, want one", nR)
+	}
+	if badD != "" {
+		r.Bad("VALFETCH", keyD, atD, badD)
+	} else {
+		r.OK("VALFETCH", keyD, atD, "discard(int(t.ValueOffset) - int(ir.po)) on the current tag")
+	}
+	if badR != "" {
+		r.Bad("VALFETCH", keyR, atR, badR)
+	} else {
+		r.OK("VALFETCH", keyR, atR, "fastRead(int(t.Size())) on the current tag")
+	}
+}
